@@ -140,3 +140,41 @@ pub fn aname(i: usize) -> String {
         _ => format!("a{}", i),
     }
 }
+
+/// Hand `chunk` to a writer through one of the entry points of `io::Write`, chosen by `how`:
+/// write_all, a loop over write, a loop over write_vectored (two slices), write_fmt (valid UTF-8
+/// only).  Whatever the entry point, the bytes are the record's bytes.
+pub fn write_varied<W: std::io::Write + ?Sized>(w: &mut W, chunk: &[u8], how: usize) -> std::io::Result<()> {
+    use std::io::{Error, ErrorKind, IoSlice};
+    match how % 4 {
+        1 => {
+            let mut off = 0;
+            while off < chunk.len() {
+                let n = w.write(&chunk[off..])?;
+                if n == 0 {
+                    return Err(Error::new(ErrorKind::WriteZero, "write returned 0"));
+                }
+                off += n;
+            }
+            Ok(())
+        }
+        2 => {
+            let mut off = 0;
+            while off < chunk.len() {
+                let rem = &chunk[off..];
+                let (a, b) = rem.split_at(rem.len() / 2);
+                let n = w.write_vectored(&[IoSlice::new(a), IoSlice::new(b)])?;
+                if n == 0 {
+                    return Err(Error::new(ErrorKind::WriteZero, "write_vectored returned 0"));
+                }
+                off += n;
+            }
+            Ok(())
+        }
+        3 => match std::str::from_utf8(chunk) {
+            Ok(s) => w.write_fmt(format_args!("{}", s)),
+            Err(_) => w.write_all(chunk),
+        },
+        _ => w.write_all(chunk),
+    }
+}
